@@ -184,13 +184,16 @@ cfgname_holder = [None]
 def wrap_inv(contract, mk, f, k):
     def inv(ex, idx, goal=False):
         c = mk(goal); c.ex = ex; c.loop = getattr(ex, 'loop_nodes', {}).get(k)
+        lb = getattr(ex, 'loop_bounds', {}).get(k)
+        # iterations completed before the iteration with index idx: independent of how the loop is indexed (range(n) / range(1, n+1) / ...)
+        c.iters = None if lb is None else ((idx - lb[0]) if not lb[2] else (lb[1] - 1 - idx))
         try: parts = f(c, idx)
         except (KeyError, AttributeError, TypeError) as e:
             raise Undecided('the invariant of loop%s refers to program state that does not exist (any more): %s: %s' % (k, type(e).__name__, e))
         if goal and contract.skolem_for(cfgname_holder[0]):
             for (j, lo, hi) in c.skolems:
-                ex.st.assume += list(contract.spec_instances(c, j))
-                for (cc, sub) in ex.st.callee_log[-4:]: ex.st.assume += list(cc.spec_instances(sub, j))
+                ex.st.add_defs(contract.spec_instances(c, j))
+                for (cc, sub) in ex.st.callee_log[-4:]: ex.st.add_defs(cc.spec_instances(sub, j))
         return z3.And(*parts) if parts else z3.BoolVal(True)
     return inv
 
@@ -223,8 +226,8 @@ def generate(contract, cfgname, registry, repo, D=None):
     posts = contract.ensures(cg)
     if contract.skolem_for(cfgname):
         for (j, lo, hi) in cg.skolems:
-            st.assume += list(contract.spec_instances(cg, j))
-            for (cc, sub) in st.callee_log[-4:]: st.assume += list(cc.spec_instances(sub, j))
+            st.add_defs(contract.spec_instances(cg, j))
+            for (cc, sub) in st.callee_log[-4:]: st.add_defs(cc.spec_instances(sub, j))
     for label, f in posts: st.add_oblig('post: ' + label, f, 'post')
     for a in contract._frame_params(cfgname):
         cur = st.heap[names[a]][0]
@@ -404,8 +407,8 @@ def verify_cfg(contract, cfgname, registry, repo, D=None, timeout_ms=None):
     for ob in st.oblig:
         # escalating budgets: verdicts must not flip when the machine is busy; only the last attempt's failure counts
         attempts = [dict(timeout_ms=tmo, depth=contract.lemma_depth, seed=0, pair_timeout_ms=None),
-                    dict(timeout_ms=tmo * 2, depth=contract.lemma_depth, seed=7, pair_timeout_ms=3000),
-                    dict(timeout_ms=tmo * 3, depth=contract.lemma_depth + 1, seed=13, pair_timeout_ms=3000)]
+                    dict(timeout_ms=tmo * 2, depth=contract.lemma_depth, seed=7, pair_timeout_ms=1500),
+                    dict(timeout_ms=tmo * 2, depth=contract.lemma_depth + 1, seed=13, pair_timeout_ms=1500)]
         dt = 0.0; v = 'unknown'; why = ''; sat_seen = False
         for k, at in enumerate(attempts):
             v, dti, why = E.discharge(ob, st.reg, alg, **at); dt += dti
